@@ -306,6 +306,12 @@ func init() {
 				return combinatorFailCase(c)
 			case 3:
 				return cmdParamsFailCase(c)
+			case 4:
+				return missingTagCase(c)
+			case 5:
+				// tasks of one process whose inputs differ only in the directory: a failing
+				// one must not get its unfinished output out through a sibling
+				w = sameNameWF(c)
 			default:
 				w = Generate(c.Tape, tierProfile(profC09, c.Tier))
 				if c.Tape.Choose(simrt.StGen, 4, 0) == 1 {
@@ -576,6 +582,53 @@ func init() {
 			v2 := failureOracle(inc2, ex, victim, what+" (second attempt after cleanup)", others...)
 			return v2
 		}})
+}
+
+// missingTagCase: an output path pattern uses a tag ({t:port.key}) that some of
+// the arriving files do not carry (the tagging component upstream returned no
+// tag for them): such a task cannot be formed - the workflow must stop with a
+// non-zero status, not write to a path with an empty tag value.
+func missingTagCase(c *Case) Verdict {
+	t := c.Tape
+	w := &WF{Name: "wf", Sources: map[string]string{}, MaxTasks: 1 + t.Choose(simrt.StGen, 4, 0), Bufsize: bufsizeOf(t)}
+	e := Edge{srcNode(w, "src0", 2+t.Choose(simrt.StGen, 4, 0), ""), "out"}
+	if t.Choose(simrt.StGen, 2, 0) == 1 {
+		e = Edge{oneToOne(w, "pre", e), "o0"}
+	}
+	tg := addNode(w, Node{Name: "tagk", Kind: KMapToTags, TagKey: "kind", TagSkip: 2 + t.Choose(simrt.StGen, 2, 0),
+		Ins: []InSpec{{Name: "in", From: []Edge{e}}}, Outs: []OutSpec{{Name: "out"}}})
+	use := addNode(w, Node{Name: "use", Kind: KProc, Cores: 1,
+		Ins:  []InSpec{{Name: "a", From: []Edge{{tg, "out"}}}},
+		Outs: []OutSpec{{Name: "o0", Pattern: "{t:a.kind}.{i:a|basename}.use.o0"}}})
+	if t.Choose(simrt.StGen, 2, 0) == 1 {
+		oneToOne(w, "post", Edge{use, "o0"})
+	}
+	ex := Eval(w)
+	var victims []*RTask
+	for _, tk := range ex.Tasks {
+		if tk.Proc == "use" && tagValueFor(&w.Nodes[tg], tk.Ins["a"].Path) == "" {
+			victims = append(victims, tk)
+		}
+	}
+	if len(victims) == 0 {
+		c.Probe("trivial-case-nothing-to-fail")
+		return OK()
+	}
+	what := "bad-input (the output path needs a tag the file does not carry)"
+	c.Fault("bad-input-missing-tag")
+	c.Sample = what + ": " + sample(w)
+	inc := RunInc(w, c.Tape, nil, 0, IncOpts{KillAt: -1, Strategy: strategyOf(c.Tape), Trace: c.Trace})
+	c.Absorb(inc)
+	c.Tasks++
+	for i, v := range victims {
+		var others []*RTask
+		others = append(others, victims[:i]...)
+		others = append(others, victims[i+1:]...)
+		if vd := failureOracle(inc, ex, v, what, others...); vd.Status != "ok" {
+			return vd
+		}
+	}
+	return OK()
 }
 
 // cmdParamsFailCase: the command of a CommandToParams component fails
